@@ -442,6 +442,19 @@ func r10d(c *core.Ctx) {
 				dup = true
 			}
 		}
+		// or the membership test is a predicate handed over as a function value (`inUse: r.hasUpstream`): a method of
+		// the router whose result is the presence flag of a lookup of its parameter in that very map
+		if !dup {
+			for _, cnd := range core.CondsAt(b) {
+				call, ok := cnd.Cond.(*ssa.Call)
+				if !ok || cnd.Val || len(call.Call.Args) != 1 || !strings.HasSuffix(core.Expr(call.Call.Args[0]), "cfg.Tag") {
+					continue
+				}
+				if membershipPredicate(call.Call.Value, sp.field) {
+					dup = true
+				}
+			}
+		}
 		c.Check(dup, "duplicate-tag-is-error:"+sp.field, ins.Pos(), sp.fn, "a tag that is already registered is rejected before registration", condList(b))
 		c.Check(strings.HasSuffix(core.Expr(ins.(*ssa.MapUpdate).Key), "cfg.Tag"), "registered-under-own-tag:"+sp.field, ins.Pos(), sp.fn, "the object is registered under its own tag", core.Expr(ins.(*ssa.MapUpdate).Key))
 	}
@@ -1071,6 +1084,53 @@ func r17e(c *core.Ctx) {
 	if n == 0 {
 		c.Unknown("delimiter-strip", token.NoPos, nil, "at least one delimiter-stripping function (tryTrimIpv6Brackets)", "none found")
 	}
+}
+
+// membershipPredicate: every function the value v may be is a method h(key) bool of the router that returns the
+// comma-ok flag of `recv.<field>[key]`.
+func membershipPredicate(v ssa.Value, field string) bool {
+	n := 0
+	for _, o := range core.Origins(v, core.OriginOpts{}) {
+		var h *ssa.Function
+		switch x := o.(type) {
+		case *ssa.Function:
+			h = x
+		case *ssa.MakeClosure:
+			h, _ = x.Fn.(*ssa.Function)
+		}
+		if h == nil {
+			return false
+		}
+		// a bound-method wrapper forwards to the method
+		if h.Synthetic != "" {
+			var target *ssa.Function
+			for _, c2 := range core.Calls(h) {
+				if g := core.StaticCallee(c2); g != nil {
+					target = g
+				}
+			}
+			h = target
+		}
+		if h == nil || h.Blocks == nil || h.Signature.Recv() == nil || len(h.Params) != 2 {
+			return false
+		}
+		for _, ret := range returnsOf(h) {
+			rs := core.ReturnResults(ret)
+			if len(rs) != 1 {
+				return false
+			}
+			ex, ok := core.Unspill(rs[0]).(*ssa.Extract)
+			if !ok || ex.Index != 1 {
+				return false
+			}
+			lk, ok := ex.Tuple.(*ssa.Lookup)
+			if !ok || lk.Index != ssa.Value(h.Params[1]) || !core.IsFieldLoad(core.Strip(lk.X), "router", field) {
+				return false
+			}
+		}
+		n++
+	}
+	return n > 0
 }
 
 // unixClassifier: h(addr) returns "unix" exactly when addr starts with "@" (and another constant otherwise).
